@@ -186,19 +186,28 @@ PROPS["C15"] = {
     "assumptions": ["attribute values are ASN.1 string types"],
 }
 
+def nt_derkey(lhs, impl):
+    f = lhs.split(" ")
+    d = _hexbytes(f[-1])
+    return (f[0], f[1] if f[0] == "derkey" else "", bytes(d[:2]).hex(), min(len(d), 2000) // 16, impl[:12])
+
 def nt_c13(lhs, impl):
     f = lhs.split(" ")
+    if f[0] in ("derkey", "derroute"):
+        return nt_derkey(lhs, impl)
     d = _hexbytes(f[1])
     # shape: sequence of (identifier octet) for the first 10 header-looking positions is too costly; use
     # (first 3 bytes, length bucket, number of 0x30/0xa0-type bytes bucket, outcome)
     return (f[0], bytes(d[:3]).hex(), min(len(d), 400) // 8, impl[:9])
 
 PROPS["C13"] = {
-    "modules": ["WhatIs.Props.C13"],
+    "modules": ["WhatIs.Props.C13", "WhatIs.Props.DerKeys"],
     "theorems": ["WhatIs.C13.no_recurse_into_empty", "WhatIs.C13.value_checks_class", "WhatIs.C13.tags_table_ok",
                  "WhatIs.C13.dump_roundtrip", "WhatIs.C13.accept_complete", "WhatIs.C13.accept_sound",
-                 "WhatIs.C13.reject_trailing", "WhatIs.C13.reject_truncated", "WhatIs.C13.value_spec"],
-    "facts": {"asn1.recurseIntoEmpty": False, "asn1.valueIgnoresClass": False, "asn1.fromTagChecksClass": True, "asn1.tagCount": 33},
+                 "WhatIs.C13.reject_trailing", "WhatIs.C13.reject_truncated", "WhatIs.C13.value_spec",
+                 "WhatIs.DerKeys.strict_keys", "WhatIs.DerKeys.pkcs1pub_other_counts_rejected", "WhatIs.DerKeys.dsa_other_counts_rejected",
+                 "WhatIs.DerKeys.pkcs1priv_other_counts_rejected"],
+    "facts": {"der.strictKeys": True, "asn1.recurseIntoEmpty": False, "asn1.valueIgnoresClass": False, "asn1.fromTagChecksClass": True, "asn1.tagCount": 33},
     "nontrivial": nt_c13,
     "rule": "TLV trees encoded by the harness's own DER encoder: every universal primitive with boundary/ill-formed contents, "
             "non-universal primitives (context 0,2,5; application 13; private 31, 2^14, 2^31-1), all shells (incl. empty constructed) "
@@ -482,6 +491,8 @@ PROPS["C03"] = {
 
 def nt_c02(lhs, impl):
     f = lhs.split(" ")
+    if f[0] in ("derkey", "derroute"):
+        return nt_derkey(lhs, impl)
     g = f[f.index("G"):]
     alg = g[1]
     param = _hexbytes(g[2]).decode("latin1")
@@ -496,11 +507,12 @@ def nt_c02(lhs, impl):
     return (f[1], alg, bits, g[3] != "-", impl[:2])
 
 PROPS["C02"] = {
-    "modules": ["WhatIs.Props.C02"],
+    "modules": ["WhatIs.Props.C02", "WhatIs.Props.DerKeys"],
     "theorems": ["WhatIs.C02.rsa_size_is_bitlen_fact", "WhatIs.C02.size_is_bitlen", "WhatIs.C02.container_independent",
                  "WhatIs.C02.bitLen_spec", "WhatIs.C02.byte_rule_witness", "WhatIs.C02.tables_ok", "WhatIs.C02.curve_paths_agree",
-                 "WhatIs.C02.private_not_shown"],
-    "facts": {"keys.rsaSizeFromByteLength": False, "names.curveOidCount": 19},
+                 "WhatIs.C02.private_not_shown", "WhatIs.DerKeys.pub_fields", "WhatIs.DerKeys.dsa_fields", "WhatIs.DerKeys.strict_keys",
+                 "WhatIs.DerKeys.pkcs1pub_from_der", "WhatIs.DerKeys.dsa_from_der"],
+    "facts": {"keys.rsaSizeFromByteLength": False, "names.curveOidCount": 19, "der.strictKeys": True, "der.pkcs1ExponentKind": "big", "der.pkcs1PubFieldCount": 2, "der.pkcs1PrivFieldCount": 10, "der.dsaPrivFieldCount": 6},
     "nontrivial": nt_c02,
     "rule": "keys written by the harness's own encoders into PKCS#1 public/private, SPKI, PKCS#8, SEC1, traditional DSA (DER and PEM, "
             "LF/CRLF), OpenSSH public lines, OpenSSH private (plain and bcrypt-encrypted), PuTTY PPK v2/v3 (plain, aes256-cbc with "
